@@ -12,6 +12,93 @@ import vf, sconnp, connp_props as cp
 PROP = "C04"
 
 
+def interleave(rng, rqs, rss):
+    """ops of a random LEGAL interleaving of the two streams (messages k of both lists belong together)"""
+    N = len(rqs)
+    if N == 0:
+        return []
+    # pieces of both streams; piece = (bytes, index of the first message it touches, index of the LAST message it touches)
+    def pieces(msgs):
+        blob = b"".join(msgs)
+        ends, pos = [], 0
+        for m in msgs:
+            pos += len(m)
+            ends.append(pos)
+        res, start = [], 0
+        for piece in sconnp.cut(blob, sconnp.split_points(blob, rng, rng.choice(["random", "random", "whole"])) if len(blob) > 1 else [blob]):
+            stop = start + len(piece)
+            last = next(k for k, e in enumerate(ends) if stop <= e)
+            first = next(k for k, e in enumerate(ends) if start < e)
+            res.append((piece, first, last))
+            start = stop
+        return res
+    qp, sp = pieces(rqs), pieces(rss)
+    # legal interleaving: a response piece that touches response k may be offered only when request k has been offered
+    # completely, i.e. every request piece whose first message index is <= k is already out
+    ops = []
+    qi, si = 0, 0
+    while qi < len(qp) or si < len(sp):
+        q_done_upto = qp[qi][1] - 1 if qi < len(qp) else N - 1         # requests 0..q_done_upto are completely offered
+        can_s = si < len(sp) and sp[si][2] <= q_done_upto
+        can_q = qi < len(qp)
+        if can_q and (not can_s or rng.random() < 0.5):
+            ops.append("Q" + qp[qi][0].hex()); qi += 1
+        elif can_s:
+            ops.append("S" + sp[si][0].hex()); si += 1
+        else:
+            ops.append("Q" + qp[qi][0].hex()); qi += 1
+    return ops
+
+
+def connect_histories(ctx, n):
+    """exchange 0 is a CONNECT (accepted with 2xx and followed by plain HTTP, or refused), exchanges 1..N-1 follow on the same connection.
+    The caller follows the documented hand-over: the request side parks after the CONNECT head (DATA_OTHER), the response side hands back
+    at the end of the CONNECT response (DATA_OTHER); what was not consumed is offered again. Requests and responses may arrive glued to the
+    CONNECT head / the CONNECT response in one chunk."""
+    rng = ctx.rng
+    out, meta = [], []
+    for _ in range(n):
+        N = rng.randint(1, 4)
+        cfg = sconnp.cfg_str(p=rng.choice([0, 1, 2, 5, 9]))
+        head = b"CONNECT r0:443 HTTP/1.1\r\nHost: r0:443\r\n" + rng.choice([b"", b"Proxy-Connection: keep-alive\r\n"]) + b"\r\n"
+        status = rng.choice([200, 200, 200, 204, 299, 403, 404, 407, 500])
+        if 200 <= status <= 299:
+            r0 = b"HTTP/1.1 %d Connection established\r\nResp-Id: 0\r\n" % status + rng.choice([b"", b"Content-Length: 0\r\n"]) + b"\r\n"
+        else:
+            body = rng.choice([b"", b"denied", b"x" * 25])
+            r0 = b"HTTP/1.1 %d Refused\r\nResp-Id: 0\r\nContent-Length: %d\r\n\r\n" % (status, len(body)) + body
+        rqs, rss = [], []
+        for i in range(1, N):
+            a, tr = sconnp.build_request(rng, i)
+            b, _ = sconnp.build_response(rng, i, head_method=(tr["method"] == b"HEAD"))
+            rqs.append(a)
+            rss.append(b)
+        follow_q, follow_s = b"".join(rqs), b"".join(rss)
+        ops = ["O"]
+        glued = rng.random() < 0.6
+        first = head + (follow_q if glued else b"")
+        for piece in sconnp.cut(first, sconnp.split_points(first, rng, rng.choice(["whole", "random"]))):
+            ops.append("Q" + piece.hex())
+        res_glued = bool(follow_s) and glued and rng.random() < 0.6
+        if res_glued:     # legal only when the requests they answer have been offered (glued to the CONNECT head)
+            # the next response(s) arrive in the same segment, at least the whole status line of the next one (RES_FINALIZE needs a complete line to
+            # decide that a new response starts; a shorter piece is buffered = consumed, and a caller would not offer it again): not consumed before the hand-over
+            ops.append("S" + (r0 + follow_s[:rng.randint(follow_s.index(b"\n") + 1, len(follow_s))]).hex())
+        else:
+            for piece in sconnp.cut(r0, sconnp.split_points(r0, rng, rng.choice(["whole", "random"]))):
+                ops.append("S" + piece.hex())
+        ops += interleave(rng, rqs, rss)
+        ops.append("C")
+        out.append(sconnp.case(ops, cfg=cfg))
+        meta.append(N)
+        if status == 407 and res_glued:
+            K407.add(out[-1])
+    return out, meta
+
+
+K407 = set()     # cases in the domain of the listed finding connect-407-no-handover
+
+
 def histories(ctx, n):
     rng = ctx.rng
     out, meta = [], []
@@ -24,36 +111,7 @@ def histories(ctx, n):
             b, _ = sconnp.build_response(rng, i, head_method=(tr["method"] == b"HEAD"))
             rqs.append(a)
             rss.append(b)
-        # pieces of both streams; piece = (bytes, index of the LAST message it touches)
-        def pieces(msgs):
-            blob = b"".join(msgs)
-            ends, pos = [], 0
-            for m in msgs:
-                pos += len(m)
-                ends.append(pos)
-            res, start = [], 0
-            for piece in sconnp.cut(blob, sconnp.split_points(blob, rng, rng.choice(["random", "random", "whole"])) if len(blob) > 1 else [blob]):
-                stop = start + len(piece)
-                last = next(k for k, e in enumerate(ends) if stop <= e)
-                first = next(k for k, e in enumerate(ends) if start < e)
-                res.append((piece, first, last))
-                start = stop
-            return res
-        qp, sp = pieces(rqs), pieces(rss)
-        # legal interleaving: a response piece that touches response k may be offered only when request k has been offered
-        # completely, i.e. every request piece whose first message index is <= k is already out
-        ops = ["O"]
-        qi, si = 0, 0
-        while qi < len(qp) or si < len(sp):
-            q_done_upto = qp[qi][1] - 1 if qi < len(qp) else N - 1         # requests 0..q_done_upto are completely offered
-            can_s = si < len(sp) and sp[si][2] <= q_done_upto
-            can_q = qi < len(qp)
-            if can_q and (not can_s or rng.random() < 0.5):
-                ops.append("Q" + qp[qi][0].hex()); qi += 1
-            elif can_s:
-                ops.append("S" + sp[si][0].hex()); si += 1
-            else:
-                ops.append("Q" + qp[qi][0].hex()); qi += 1
+        ops = ["O"] + interleave(rng, rqs, rss)
         ops.append("C")
         out.append(sconnp.case(ops, cfg=cfg))
         meta.append(N)
@@ -76,6 +134,8 @@ def check(ctx):
     pr = vf.proof_step(ctx, "Properties_C04")
     n = 4000 if ctx.thorough() else 1200
     cases, meta = histories(ctx, n)
+    c2, m2 = connect_histories(ctx, n // 3)
+    cases, meta = cases + c2, meta + m2
     nmap = dict(zip(cases, meta))
     impl, model, verdicts, traces, crash = cp.correspond_and_oracle(ctx, cases)
     if crash:
@@ -83,6 +143,7 @@ def check(ctx):
     pip_bit = vf.gen_const("c_HTP_CONN_PIPELINED")
     nbad = 0
     f1 = 0
+    n407 = 0
     known = {k["id"]: k for k in vf.known_for(PROP)}
     keys = set()
     for i, c in enumerate(cases[:len(impl)]):
@@ -95,7 +156,7 @@ def check(ctx):
             for k, d in enumerate(dumps):
                 u = sconnp.field(d, "u")
                 uri = bytes.fromhex(u) if u not in (None, "NULL", "-") else b""
-                m = re.match(rb"/r(\d+)", uri)
+                m = re.match(rb"/?r(\d+)", uri)
                 rid = int(m.group(1)) if m else None
                 sid = None
                 hm = re.search(r"SH=\[([^\]]*)\]", d)
@@ -119,6 +180,9 @@ def check(ctx):
         if problem and (traces[i] & 2) and "F1-lfcr-desynchronises-responses" in known:
             f1 += 1
             continue
+        if problem and c in K407 and "connect-407-no-handover" in known and len(dumps) > N:
+            n407 += 1
+            continue
         if problem:
             nbad += 1
             if nbad <= 2:
@@ -131,6 +195,10 @@ def check(ctx):
             sconnp.field(sconnp.tx_dumps(wo[0])[0], "sp") != sconnp.field(sconnp.tx_dumps(wo[1])[0], "sp"):
         ctx.known.append("id=F1-lfcr-desynchronises-responses witness still exhibits it (+%d generated histories with trace point 1): %s"
                          % (f1, known["F1-lfcr-desynchronises-responses"]["what"][:170]))
+    wc = open(vf.VERIF + "/corpus/c04_connect_407.case").read().strip()
+    w4, _ = sconnp.run_impl(ctx, [wc], tag="known407")
+    if w4 and "connect-407-no-handover" in known and len(sconnp.tx_dumps(w4[0])) == 3:
+        ctx.known.append("id=connect-407-no-handover witness still exhibits it (+%d generated histories): %s" % (n407, known["connect-407-no-handover"]["what"][:200]))
     mm = vf.first_mismatches(impl, model, limit=20) if not crash else []
     ctx.cov["suites"]["S-connp"]["mismatches"] = len(mm)
     ctx.cov["suites"]["S-connp"]["pairing_failures"] = nbad
@@ -141,7 +209,7 @@ def check(ctx):
     vf.note_distinct(ctx, keys)
     vf.sample(ctx, {"case": cases[0][:400], "N": meta[0]})
     rule = ("%d connections with N = 1..6 id-tagged well-formed exchanges (request id in the URI, response id in a Resp-Id header), random legal interleavings "
-            "(response k only after request k was offered; requests may run ahead; runs of messages glued into one chunk; random cuts): #transactions = N, ids "
+            "(response k only after request k was offered; requests may run ahead; runs of messages glued into one chunk; random cuts; a third of them start with a CONNECT exchange, accepted or refused, with the hand-over protocol): #transactions = N, ids "
             "match per transaction, PIPELINED = event-based criterion. distinct_nontrivial = distinct (N, flag, length class)." % len(cases))
     return vf.standard_epilogue(ctx, pr, "make Props/Properties_C04.vo + ./check C04", rule,
                                 ["'started' is read at the level the API exposes (REQUEST_START / RESPONSE_START events), see DESIGN.md",
